@@ -6,8 +6,15 @@
 #include "hutil.h"
 #include <signal.h>
 #include <unistd.h>
-/* per-line hang guard: a line that does not finish within VERIF_LINE_TIMEOUT seconds (default 10)
+#include <sys/time.h>
+/* per-line hang guard: a line that burns more than VERIF_LINE_TIMEOUT seconds of CPU time (default 10; ITIMER_PROF, so a
+ * loaded machine does not turn slow lines into false HANGs) or does not finish within 30x that in wall-clock time (blocked)
  * is reported as HANG and the process exits (the orchestrator restarts after that line) */
+static void driver_arm(int secs) {
+    struct itimerval it; memset(&it, 0, sizeof it); it.it_value.tv_sec = secs;
+    setitimer(ITIMER_PROF, &it, 0);
+    alarm(secs ? (secs * 30 < 60 ? 60 : secs * 30) : 0);
+}
 static void driver_on_alarm(int sig) { (void)sig; static const char m[] = "HANG\n"; fflush(stdout); if(write(1, m, sizeof m - 1)) {} _exit(99); }
 /* optional: a leading token "@Name" selects a context (e.g. the current type) for this line only-and-after */
 __attribute__((weak)) int driver_select(const char *name);
@@ -19,8 +26,9 @@ int main(void) {
     setvbuf(stdout, obuf, _IOFBF, sizeof(obuf));
     int line_timeout = getenv("VERIF_LINE_TIMEOUT") ? atoi(getenv("VERIF_LINE_TIMEOUT")) : 10;
     signal(SIGALRM, driver_on_alarm);
+    signal(SIGPROF, driver_on_alarm);
     while((n = getline(&line, &cap, stdin)) > 0) {
-        alarm(line_timeout);
+        driver_arm(line_timeout);
         static char *argv[1 << 16];
         int argc = 0;
         char *save = 0;
@@ -40,7 +48,7 @@ int main(void) {
         if(!handled) fputs("bad-op", stdout);
         fputc('\n', stdout);
         fflush(stdout);
-        alarm(0);
+        driver_arm(0);
     }
     free(line);
     return 0;
